@@ -822,3 +822,138 @@ Fixpoint canon (t : gtype) (v : gv) {struct t} : gv :=
 (* map entries are compared as sets of (key, value) *)
 Definition same_entries (a b : list (list N * gv)) : Prop :=
   forall k, assoc k a = assoc k b.
+
+(* ------------------------------------------------------------------------------------------ *)
+(* Part 6: embedded structs - nbt/typeinfo.go typeFields                                       *)
+
+(* a struct type as declared: ordinary fields (tagged: the name comes from a tag) and anonymous struct
+   fields without a name tag (by value or by pointer), whose fields are promoted *)
+Inductive dfield : Type :=
+| DF (fi : finfo) (tagged : bool) (t : gtype)
+| DE (ptr : bool) (ds : list dfield).
+(* its values: one per declared field; an embedded pointer may be nil *)
+Inductive dv : Type :=
+| VF (v : gv)
+| VE (o : option (list dv)).
+
+(* an entry of the field table: the index sequence from the outer struct down to the field *)
+Record tfield : Type := TF { tf_path : list nat; tf_fi : finfo; tf_tagged : bool; tf_ty : gtype }.
+
+(* every field reachable through embedding, with its index sequence; depth-first in declaration order, which
+   is the order of the final sort.Sort(byIndex) *)
+Fixpoint cands_f (pre : list nat) (i : nat) (d : dfield) : list tfield :=
+  match d with
+  | DF fi tg t => if f_skip fi then [] else [TF (pre ++ [i]) fi tg t]
+  | DE _ ds =>
+      (fix go (j : nat) (ds : list dfield) : list tfield :=
+         match ds with [] => [] | d' :: r => cands_f (pre ++ [i]) j d' ++ go (S j) r end) O ds
+  end.
+Fixpoint cands_l (pre : list nat) (j : nat) (ds : list dfield) : list tfield :=
+  match ds with [] => [] | d :: r => cands_f pre j d ++ cands_l pre (S j) r end.
+
+Fixpoint path_eqb (a b : list nat) : bool :=
+  match a, b with
+  | [], [] => true
+  | x :: a', y :: b' => Nat.eqb x y && path_eqb a' b'
+  | _, _ => false
+  end.
+(* Go's rule modified by tags (dominantField): among the fields of one name the shallowest wins; at equal
+   depth a tagged one beats untagged ones; two of equal rank annihilate the name altogether *)
+Definition dominates (all : list tfield) (x : tfield) : bool :=
+  forallb (fun y =>
+             negb (bytes_eqb (f_name (tf_fi x)) (f_name (tf_fi y)))
+             || path_eqb (tf_path x) (tf_path y)
+             || (length (tf_path x) <? length (tf_path y))%nat
+             || (Nat.eqb (length (tf_path x)) (length (tf_path y)) && tf_tagged x && negb (tf_tagged y))) all.
+Definition type_fields (ds : list dfield) : list tfield :=
+  filter (dominates (cands_l [] O ds)) (cands_l [] O ds).
+Definition emb_table (ds : list dfield) : list (finfo * gtype) :=
+  map (fun tf => (tf_fi tf, tf_ty tf)) (type_fields ds).
+
+(* v.Field(i) along an index sequence.  None: no such field; Some None: a nil embedded pointer on the way
+   (the encoder leaves the field out) *)
+Fixpoint walk (p : list nat) (vs : list dv) : option (option gv) :=
+  match p with
+  | [] => None
+  | i :: p' =>
+      match nth_error vs i with
+      | Some (VF v) => match p' with [] => Some (Some v) | _ => None end
+      | Some (VE (Some vs')) => walk p' vs'
+      | Some (VE None) => Some None
+      | None => None
+      end
+  end.
+(* the table entries the encoder reaches, each through its own index sequence, and the values found *)
+Fixpoint reached (tfs : list tfield) (vs : list dv) : option (list (finfo * gtype) * list gv) :=
+  match tfs with
+  | [] => Some ([], [])
+  | tf :: r =>
+      match walk (tf_path tf) vs, reached r vs with
+      | Some (Some x), Some (fs, xs) => Some ((tf_fi tf, tf_ty tf) :: fs, x :: xs)
+      | Some None, Some (fs, xs) => Some (fs, xs)
+      | _, _ => None
+      end
+  end.
+Definition enc_emb (ds : list dfield) (vs : list dv) : tres :=
+  match reached (type_fields ds) vs with
+  | Some (fs, xs) => fields_enc (fun t x => enc t x) fs xs []
+  | None => TPanic
+  end.
+
+(* decoding into a fresh struct: the field loop over the table, then every decoded value stored through its
+   index sequence; an embedded pointer is allocated when a field below it is decoded *)
+Fixpoint is_prefix (a b : list nat) : bool :=
+  match a, b with
+  | [], _ => true
+  | x :: a', y :: b' => Nat.eqb x y && is_prefix a' b'
+  | _, _ => false
+  end.
+Definition has_key (acc : list (list N * gv)) (k : list N) : bool :=
+  match assoc k acc with Some _ => true | None => false end.
+Fixpoint rebuild_f (sel : list tfield) (acc : list (list N * gv)) (pre : list nat) (i : nat) (d : dfield) : dv :=
+  match d with
+  | DF fi _ t =>
+      VF (if existsb (fun tf => path_eqb (tf_path tf) (pre ++ [i])) sel
+          then match assoc (f_name fi) acc with Some y => y | None => zero t end
+          else zero t)
+  | DE ptr ds =>
+      let inner := (fix go (j : nat) (ds : list dfield) : list dv :=
+                      match ds with [] => [] | d' :: r => rebuild_f sel acc (pre ++ [i]) j d' :: go (S j) r end) O ds in
+      if ptr && negb (existsb (fun tf => is_prefix (pre ++ [i]) (tf_path tf) && has_key acc (f_name (tf_fi tf))) sel)
+      then VE None else VE (Some inner)
+  end.
+Fixpoint rebuild_l (sel : list tfield) (acc : list (list N * gv)) (pre : list nat) (j : nat) (ds : list dfield) : list dv :=
+  match ds with [] => [] | d :: r => rebuild_f sel acc pre j d :: rebuild_l sel acc pre (S j) r end.
+
+Inductive eres : Type := EOk (vs : list dv) | EErr | EOut.
+Definition unm_emb (tr : tag) (ds : list dfield) : eres :=
+  match tr with
+  | TCompound es =>
+      match struct_loop (emb_table ds) (fun x t => unm x t) es [] with
+      | Some (Some acc) => EOk (rebuild_l (type_fields ds) acc [] O ds)
+      | Some None => EErr
+      | None => EOut
+      end
+  | _ => EErr
+  end.
+
+Definition marshal_emb (f : fmt) (name : list N) (ds : list dfield) (vs : list dv) : mres :=
+  if (match f with File => name_too_long name | Net => false end) then MErr
+  else match enc_emb ds vs with
+       | TOk tr => MOk (doc f name tr)
+       | TErr => MErr
+       | TPanic => MPanic
+       end.
+Inductive edres : Type := EDOk (name : list N) (vs : list dv) (left : list N) | EDErr | EDPanic | EDFuel | EDOut.
+Definition unmarshal_emb (f : fmt) (ds : list dfield) (bs : list N) : edres :=
+  match run_flat (Decode f (dec_tree (S (length bs)))) bs with
+  | FOk (name, tr) rest =>
+      match unm_emb tr ds with
+      | EOk vs => EDOk name vs rest
+      | EErr => EDErr
+      | EOut => EDOut
+      end
+  | FErr _ => EDErr
+  | FPanic _ => EDPanic
+  | FFuel => EDFuel
+  end.
